@@ -39,6 +39,12 @@ CategorisedDefined == \A c \in Cats : InCat(T, c, op) => (Defined(T, op) \/ Same
 CategorisedTakeArg == \A c \in Cats : (InCat(T, c, op) /\ Defined(T, op)) => HasArg(T, op)
 JrelJabsDisjoint   == ~(InCat(T, "jrel", op) /\ InCat(T, "jabs", op))
 
+(* the category sets the decoder consults (JREL_OPS, JABS_OPS, CONST_OPS, NAME_OPS, LOCAL_OPS, FREE_OPS, COMPARE_OPS: frozen   *)
+(* when the table is finalized) are the published has* lists: an opcode defined after the sets were frozen is in one but not  *)
+(* the other, and the "table xdis uses" is then not the table it shows                                                          *)
+FrozenSetsAgree == \A c \in Cats : T.frozen[c][op + 1] = T[c][op + 1]
+JumpOpsAreJumps == T.frozen.jump[op + 1] = (IF InCat(T, "jrel", op) \/ InCat(T, "jabs", op) THEN 1 ELSE 0)
+
 (* EXTENDED_ARG exists from 2.0; 16-bit shift before word code (3.6), 8-bit from then on *)
 ExtendedArgRight == VGE(T.ver, 2, 0) =>
                       /\ T.ext \in 0..255 /\ T.opname[T.ext + 1] = "EXTENDED_ARG"
